@@ -66,7 +66,7 @@ def run(ctx):
         if ss[0] != "ok":
             obad.append((i, "stub: %s" % s[:100])); continue
         if ss[1] != "1" or ss[4] != "1" or ss[6] != "1":
-            obad.append((i, "stub: send_raw result is not the configured response (%s)" % s[:60]))
+            obad.append((i, "stub: send_raw result is not the configured response, or a stub configured to fail (sync or async) did not log what it was sent (%s)" % s[:60]))
         if ss[2] != env_s(fr, to):
             obad.append((i, "stub: logged envelope %s differs from the one sent %s" % (ss[2], env_s(fr, to))))
         if ss[5] != "1":
